@@ -64,7 +64,11 @@ def make_world():
         "iD0": M.build_index(args["dD0"], 1),
         "iD1": M.build_index(args["dD1"], 2),
     }
+    # cC / xC: the SAME output shape as cB / xB over different data (other cells are empty): stale result buffers show up
+    idx["iC0"] = M.build_index(args["dB1"], 1)
+    idx["iC1"] = M.build_index(args["dB0"], 0)
     dims_lists = {"cA": [idx["iA0"], idx["iA1"]], "cB": [idx["iB0"], idx["iB1"]], "xA": [args["dA0"], args["dA1"]], "xB": [args["dB0"], args["dB1"]],
+                  "cC": [idx["iC0"], idx["iC1"]], "xC": [args["dB1"], args["dB0"]],
                   "cD": [idx["iD0"], idx["iD1"]], "xD": [args["dD0"], args["dD1"]]}
     shape = (3, 3)
     cubes = {
@@ -72,6 +76,8 @@ def make_world():
         "cB": ccube(dims_lists["cB"], interacting_shape=shape),
         "xA": xcube(dims_lists["xA"], interacting_shape=shape),
         "xB": xcube(dims_lists["xB"], interacting_shape=shape),
+        "cC": ccube(dims_lists["cC"], interacting_shape=shape),
+        "xC": xcube(dims_lists["xC"], interacting_shape=shape),
         "cD": ccube(dims_lists["cD"], interacting_shape=shape),
         "xD": xcube(dims_lists["xD"], interacting_shape=shape),
     }
@@ -173,7 +179,9 @@ def events(max_sel, func_subset=None):
     """All events: ('calc', cube, (func names...)) and ('short', cube, name)."""
     w = make_world()
     out = []
-    for cube in ("cA", "cB", "xA", "xB"):
+    for cube in ("cA", "cB", "cC", "xA", "xB", "xC"):
+        if cube in ("cC", "xC") and max_sel > 1:
+            continue  # the same-shape twins only join the single-function alphabet (depth 2/3 histories)
         names = sorted(w["ff" if cube[0] == "c" else "xf"])
         if func_subset is not None:
             names = [n for n in names if n in func_subset]
@@ -305,12 +313,18 @@ def run_history(hist, check_all=True):
         viol.append(("argument-modified-by-constructor", -1, "building the cubes / aggregate-function objects changed caller-owned %r" % (bad0,)))
     changed = []
     hcur = h0
+    earlier = []  # (event index, live output, frozen at return time)
     for i, ev in enumerate(hist):
         try:
-            out = harness.freeze(apply_event(w, ev))
+            live = apply_event(w, ev)
+            out = harness.freeze(live)
         except Exception as e:  # noqa
             viol.append(("event-raised", i, "event %r raised %r" % (ev, e)))
             break
+        for j, lv, fr in earlier:
+            if harness.freeze(lv) != fr:
+                viol.append(("earlier-result-overwritten", i, "event %r changed the arrays RETURNED by event %d (%r)" % (ev, j, hist[j])))
+        earlier.append((i, live, out))
         if check_all or i == len(hist) - 1:
             exp = fresh_single(ev)
             if out != exp:
